@@ -15,7 +15,8 @@ RULE = ('Per history: (seed | mnemonic | xprv) x network (11) x witness type; op
         'keys_for_path(number_of_keys=k), reopen; final restore in fresh databases from the seed, the mnemonic, the '
         'master xprv (replaying the requests) and watch-only from the account xpub. [wallets with a non-zero default account, set_default_account, read-only requests (public_master, wif, account, keys) between key requests] Non-trivial = >=2 accounts, or '
         'mixed witness types, or a bulk creation followed by reopen; every restore comparison counts; distinct by '
-        'history. [plus a wallet made from the account PRIVATE key: the key requests replayed on it are refused or match the reference derivation for the requested witness type, indices never repeat]')
+        'history. [plus a wallet made from the account PRIVATE key: the key requests replayed on it are refused or match the reference derivation for the requested witness type, indices never repeat]'
+        ' [request list objects are reused for the restored wallet and for a second request]')
 ASSUMPTIONS = ['ref/bip32.py, ref/bip39.py, ref/address.py', 'SQLite only',
                'single-signature HD wallets (multisig paths are exercised by C10)']
 SHARDS = {'quick': 16, 'thorough': 16}
